@@ -408,6 +408,7 @@ func main() {
 	run("OpTable", "", genOpTable)
 	run("Builtins", "", genBuiltins)
 	run("Adapters", adaptersStub, genAdapters)
+	run("VMShare", vmShareStub, genVMShare)
 	js, _ := json.MarshalIndent(status, "", "  ")
 	_ = os.WriteFile(filepath.Join(*out, "status.json"), append(js, '\n'), 0o644)
 	for _, v := range status {
